@@ -50,8 +50,10 @@ class Proto:
         pass
 
 
-def run_port(ops) -> dict:
-    """ops: [(gap_s, burst, length_bytes, concurrent)]"""
+def run_port(ops, dtl=None) -> dict:
+    """ops: [(gap_s, burst, length_bytes, concurrent)]; dtl: how the caller sets write_frame's disable_tx_limits argument
+    (None = not given, "kw" = disable_tx_limits=True, "pos" = True positionally, "alt" = every other call) - the statement says
+    "however commands are offered": on a serial gateway that flag must not buy any air time"""
     loop = install_loop()
     real_pc = _time.perf_counter
     try:
@@ -75,8 +77,14 @@ def run_port(ops) -> dict:
             pend[0] += 1
             maxpend[0] = max(maxpend[0], pend[0])
             calls.append((loop.time(), frame))
+            k = len(calls)
             try:
-                await tr.write_frame(frame)
+                if dtl == "kw" or (dtl == "alt" and k % 2):
+                    await tr.write_frame(frame, disable_tx_limits=True)
+                elif dtl == "pos":
+                    await tr.write_frame(frame, True)
+                else:
+                    await tr.write_frame(frame)
             finally:
                 pend[0] -= 1
 
@@ -343,6 +351,12 @@ def shard(arg) -> E.Tally:
         for key, what in judge_port(ops if len(ops) < 5 else f"steady {ops[0]} x{len(ops) - 1} + burst", r):
             t.bad(key, what, {"ops": [list(o) for o in ops], "kind": "port"})
         outcomes.add((len(r["writes"]), round(r["t_end"])))
+        for dtl in ((("kw",) if quick else ("kw", "alt")) if len(ops) <= 2 else ("pos",) if len(ops) > 5 else ("kw",)):
+            r2 = run_port(list(ops), dtl)
+            t.n += 1
+            t.by["writes"] += len(r2["writes"])
+            for key, what in judge_port(ops if len(ops) < 5 else f"steady {ops[0]} x{len(ops) - 1} + burst", r2):
+                t.bad(key, what + f" [caller passes disable_tx_limits ({dtl})]", {"ops": [list(o) for o in ops], "kind": "port", "dtl": dtl})
         if len(ops) <= 2 or len(ops) > 5:
             m = run_mqtt(list(ops))
             t.n += 1
@@ -371,7 +385,8 @@ def run(ctx) -> None:
         distinct_outcomes=total.nontrivial,
         exhaustive=True,
         samples=total.samples[:5] or ["-"],
-        rule="all operation sequences (gap in {0,0.5,30,600}s, burst in {1,30,70}, frame length in {1,48} bytes, sequential/concurrent) up to depth 2 "
+        rule="all operation sequences (gap in {0,0.5,30,600}s, burst in {1,30,70}, frame length in {1,48} bytes, sequential/concurrent) up to depth 2, "
+        "each with the caller's disable_tx_limits flag absent and set (keyword / positional; thorough: on every other call) "
         "(thorough: + depth 3 over a 24-letter alphabet) + steady streams below/at/above the limit followed by a burst, each run on the real "
         "PortTransport.write_frame (module re-imported under a virtual perf_counter so the real decorated bucket is fresh) and the real "
         "MqttTransport.write_frame with a fake client; oracle over every pair of writes (window). states/transitions = serial writes observed",
@@ -384,5 +399,6 @@ def replay(rep: dict):
     ops = [tuple(o) for o in rep["ops"]]
     label = ops if len(ops) < 5 else f"steady {ops[0]} x{len(ops) - 1} + burst"
     if rep["kind"] == "port":
-        return judge_port(label, run_port(ops))
+        r = run_port(ops, rep.get("dtl"))
+        return judge_port(label, r)
     return judge_mqtt(label, run_mqtt(ops))
